@@ -246,6 +246,135 @@ func main() {
 		fmt.Fprintf(&b, "/-- `handler = X.WithF(handler, …)` statements of buildProxyHandlerChainFunc in source order: the first is the innermost\n    handler (runs last on a request); a trailing `?` marks a conditional wrapper -/\n")
 		fmt.Fprintf(&b, "def proxyChain : List String := %s\n", lib.LeanStrList(chain))
 
+		// --- the authorizer wiring (shape facts: what a behavioural tie cannot see is WHO else could answer)
+		// (a) AuthorizerConfig.New: every call expression whose result is assigned to / returned as the authorizer
+		af := g.ParseFile("pkg/gateway/proxy/authorizer/config.go")
+		an := lib.FuncDecl(af, "AuthorizerConfig", "New")
+		if an == nil {
+			lib.Fatalf("AuthorizerConfig.New not found")
+		}
+		var ctors []string
+		var collect func(e ast.Expr)
+		collect = func(e ast.Expr) {
+			ast.Inspect(e, func(n ast.Node) bool {
+				if call, ok := n.(*ast.CallExpr); ok {
+					switch f := call.Fun.(type) {
+					case *ast.SelectorExpr:
+						if x, ok := f.X.(*ast.Ident); ok {
+							ctors = append(ctors, x.Name+"."+f.Sel.Name)
+						} else {
+							ctors = append(ctors, f.Sel.Name)
+						}
+					case *ast.Ident:
+						ctors = append(ctors, f.Name)
+					}
+				}
+				return true
+			})
+		}
+		ast.Inspect(an, func(n ast.Node) bool {
+			switch st := n.(type) {
+			case *ast.AssignStmt:
+				for _, r := range st.Rhs {
+					collect(r)
+				}
+			case *ast.ReturnStmt:
+				for _, r := range st.Results {
+					collect(r)
+				}
+			}
+			return true
+		})
+		fmt.Fprintf(&b, "/-- every function called in `AuthorizerConfig.New` (pkg/gateway/proxy/authorizer/config.go) to build the authorizer -/\n")
+		fmt.Fprintf(&b, "def authorizerConstructors : List String := %s\n", lib.LeanStrList(ctors))
+		// (b) AuthorizationOptions.ApplyTo: what is stored in genericConfig.Authorization.Authorizer
+		of := g.ParseFile("pkg/gateway/proxy/options/authorization.go")
+		oa := lib.FuncDecl(of, "AuthorizationOptions", "ApplyTo")
+		if oa == nil {
+			lib.Fatalf("AuthorizationOptions.ApplyTo not found")
+		}
+		exprString := func(e ast.Expr) string {
+			var sb strings.Builder
+			var w func(e ast.Expr)
+			w = func(e ast.Expr) {
+				switch x := e.(type) {
+				case *ast.Ident:
+					sb.WriteString(x.Name)
+				case *ast.SelectorExpr:
+					w(x.X)
+					sb.WriteString("." + x.Sel.Name)
+				case *ast.UnaryExpr:
+					sb.WriteString(x.Op.String())
+					w(x.X)
+				case *ast.CallExpr:
+					w(x.Fun)
+					sb.WriteString("(")
+					for i, a := range x.Args {
+						if i > 0 {
+							sb.WriteString(", ")
+						}
+						w(a)
+					}
+					sb.WriteString(")")
+				default:
+					sb.WriteString("?")
+				}
+			}
+			w(e)
+			return sb.String()
+		}
+		var applyStmts []string
+		for _, st := range oa.Body.List {
+			if as, ok := st.(*ast.AssignStmt); ok {
+				var l, r []string
+				for _, e := range as.Lhs {
+					l = append(l, exprString(e))
+				}
+				for _, e := range as.Rhs {
+					r = append(r, exprString(e))
+				}
+				applyStmts = append(applyStmts, strings.Join(l, ", ")+" "+as.Tok.String()+" "+strings.Join(r, ", "))
+			}
+		}
+		fmt.Fprintf(&b, "/-- the assignments of `AuthorizationOptions.ApplyTo` (pkg/gateway/proxy/options/authorization.go), in order -/\n")
+		fmt.Fprintf(&b, "def authorizationApplyTo : List String := %s\n", lib.LeanStrList(applyStmts))
+		// (c) proxy.go: the authorizer handed to the impersonation filter, and the ApplyTo call of CreateProxyConfig
+		var filterAuthorizer, applyCall string
+		ast.Inspect(pf, func(n ast.Node) bool {
+			call, ok := n.(*ast.CallExpr)
+			if !ok {
+				return true
+			}
+			if sel, ok := call.Fun.(*ast.SelectorExpr); ok {
+				if sel.Sel.Name == "WithNoLoggingImpersonation" && len(call.Args) >= 2 {
+					filterAuthorizer = exprString(call.Args[1])
+				}
+				if sel.Sel.Name == "ApplyTo" && exprString(sel.X) == "o.Authorization" {
+					applyCall = exprString(call)
+				}
+			}
+			return true
+		})
+		if filterAuthorizer == "" || applyCall == "" {
+			lib.Fatalf("proxy.go: WithNoLoggingImpersonation(handler, <authorizer>, …) or o.Authorization.ApplyTo(…) not found")
+		}
+		fmt.Fprintf(&b, "/-- the authorizer argument of `WithNoLoggingImpersonation` in buildProxyHandlerChainFunc -/\n")
+		fmt.Fprintf(&b, "def filterAuthorizer : String := %q\n", filterAuthorizer)
+		fmt.Fprintf(&b, "/-- the call that wires the proxy authorizer in `CreateProxyConfig` -/\n")
+		fmt.Fprintf(&b, "def proxyAuthorizationApply : String := %q\n", applyCall)
+		// the cluster manager of the handler chain is the same object
+		var chainManager string
+		ast.Inspect(pf, func(n ast.Node) bool {
+			if kv, ok := n.(*ast.KeyValueExpr); ok {
+				if k, ok := kv.Key.(*ast.Ident); ok && k.Name == "clusterManager" {
+					chainManager = exprString(kv.Value)
+				}
+			}
+			return true
+		})
+		fmt.Fprintf(&b, "/-- `proxyHandlerOptions.clusterManager` in `CreateProxyConfig` -/\n")
+		fmt.Fprintf(&b, "def chainClusterManager : String := %q\n", chainManager)
+
 		b.WriteString("end KG.Gen.C02\n")
 		g.Emit("C02.lean", b.String())
 	})
